@@ -1097,6 +1097,10 @@ func (c *c06ctx) partB(r *hx.Rand, base string) {
 			for _, data := range datas {
 				cs := r.Pick(3, 16, 64)
 				total := 1 + r.Intn(9)
+				if r.Intn(5) == 0 {
+					// bitmaps of 8 bytes and more (the word-sized paths of the bitmap code): 57 chunks and up
+					cs, total = 3, r.Pick(57, 64, 65, 100, 129, 190)
+				}
 				if data == "middle-damaged" && total < 2 {
 					total = 2 + r.Intn(6)
 				}
